@@ -343,6 +343,8 @@ func digests(b []byte) [3]string {
 func (r *runner) run(k *kase) {
 	my := r.id
 	r.id++
+	// drawn before the replay filter so that the random stream is the same in a replay
+	restOK, restTouch := r.rng.Bool(), r.rng.Bool()
 	if !r.cw.Want(my) {
 		return
 	}
@@ -356,7 +358,6 @@ func (r *runner) run(k *kase) {
 		levelValid = false
 	}
 	// the abstracted rest
-	restOK, restTouch := r.rng.Bool(), r.rng.Bool()
 	k.Rest = "irrelevant"
 	if levelValid && k.Cfg.Level != "skip" && f.intact() {
 		src := e
